@@ -27,9 +27,10 @@ theorem inv_stall {T n : Nat} {s s' : St} (hT : 1 ≤ T) (hi : Inv T s)
     case pos =>
       simp only [hdue, if_true, timerExpired, ttInput, real_tbl] at h
       rcases htr hl with htr | htr
-      · simp [htr, TrafficTimer.table, ttOutputs, sendPingResetTimer, sendPing, ho] at h
-        subst h
-        constructor <;> simp_all [inUse]
+      · simp [htr, TrafficTimer.table, ttOutputs] at h
+        obtain ⟨_, he⟩ := sprt_ok rfl h
+        subst he
+        constructor <;> simp_all [inUse, pinged]
         all_goals grind
       · simp [htr, TrafficTimer.table, ttOutputs, signalReconnect, hc] at h
         subst h
